@@ -77,7 +77,9 @@ func (rows *leveldbRows) ascendRange(rng *util.Range, iterator RowIterator) {
 	it := rows.db.NewIterator(rng, nil)
 	defer it.Release()
 	for ok := it.First(); ok; ok = it.Next() {
-		iterator(fromProto(it.Value()))
+		if !iterator(fromProto(it.Value())) {
+			break
+		}
 	}
 	if err := it.Error(); err != nil {
 		panic(err)
